@@ -71,6 +71,8 @@ def run(ctx):
     cov["cluster_documents"] = cl
     # ---- (2c) attribute level (spec/GkfAttrs.tla)
     cov["attribute_documents"] = attr_docs(ctx)
+    # ---- (2d) chunked delivery at every split point
+    cov["chunked_delivery"] = chunked(ctx, docs)
     # ---- (3) mutation / truncation sweep of repository inputs
     mut = mutation_sweep(ctx)
     cov["other_parsers"] = other_parsers_sweep(ctx)
@@ -284,4 +286,45 @@ def other_parsers_sweep(ctx):
             ctx.violation("others|%s|%s" % (kind, bad), "%s mutated (mode %d at byte %d) makes the %s reader %s (rc=%s)\n%s" % (
                 name, mode, pos, {"g3": "gama-g3 input", "g3adj": "gama-g3 results (compare-xyz)", "res": "adjustment results (read_xml)"}[kind], bad, rc, out[-1500:]),
                 replay={"file": name, "kind": kind, "mode": mode, "pos": pos, "data_latin1": m.decode("latin-1")})
+    return st
+
+
+def chunked(ctx, model_docs):
+    """harness/drv_chunks: every two-chunk split and byte-wise delivery give the outcome of the whole document"""
+    import json
+    wd = os.path.join(ctx.outdir, "chunks")
+    os.makedirs(wd, exist_ok=True)
+    files = []
+
+    def add(name, text):
+        p = os.path.join(wd, name)
+        open(p, "w" if isinstance(text, str) else "wb").write(text)
+        files.append(p)
+    add("attr_base.gkf", gkfdocs.attr_doc([])[0])
+    for i, m in enumerate([{"e": "distance", "a": "val", "ty": "num", "w": "badnum"}, {"e": "covmat", "a": "dim", "ty": "nat", "w": "domain"},
+                           {"e": "point", "a": "id", "ty": "id", "w": "missing"}, {"e": "vec", "a": "bogus", "ty": "str", "w": "unknown"},
+                           {"e": "parameters", "a": "sigma-act", "ty": "enum", "w": "badenum"}]):
+        add("attr_bad%d.gkf" % i, gkfdocs.attr_doc([m])[0])
+    rnd = random.Random(ctx.seed + 11)
+    for i, d in enumerate(rnd.sample(list(model_docs), min(len(model_docs), 6 if ctx.quick else 40))):
+        add("model%d.gkf" % i, gkfdocs.materialise(d["events"])[0])
+    d0 = os.path.join(vlib.REPO, "tests/gama-local/input")
+    small = sorted((os.path.getsize(os.path.join(d0, f)), f) for f in os.listdir(d0) if f.endswith(".gkf"))
+    for _, f in small[: 3 if ctx.quick else 10]:
+        add("repo_" + f, open(os.path.join(d0, f), "rb").read())
+    st = {"documents": len(files), "splits": 0}
+    for kind in ("asan", "plain"):
+        bdir = vlib.build(kind, ["drv_chunks"])
+        rc, out = vlib.sh([os.path.join(bdir, "drv_chunks")] + files, timeout=3000, env=vlib.ASAN_ENV if kind == "asan" else None)
+        recs = [json.loads(l) for l in out.splitlines() if l.startswith("{")]
+        if rc != 0 or len(recs) != len(files):
+            ctx.violation("chunks|crash|" + kind, "drv_chunks (%s build) died rc=%s after %d of %d documents\n%s" % (kind, rc, len(recs), len(files), out[-1500:]))
+            continue
+        for r_ in recs:
+            if kind == "plain":
+                st["splits"] += r_["size"]
+            if r_["bad_splits"] or not r_["bytewise_same"]:
+                ctx.violation("chunks|differs", "%s: %d of %d two-chunk splits (first at byte %d: %s) / byte-wise delivery %s give another outcome than the whole document (%s)" % (
+                    os.path.basename(r_["file"]), r_["bad_splits"], r_["size"], r_["first_bad"], r_["first_bad_outcome"], "differs" if not r_["bytewise_same"] else "agrees",
+                    "accepted" if r_["whole_ok"] else "refused at line %d" % r_["whole_line"]), replay={"file": r_["file"]})
     return st
